@@ -337,6 +337,9 @@ def sec_jobs(tier):
         ("ctrl-val2", [("Host", "%b"), (CL, "%b")], "", "R", False),
         ("ctrl-line", [("Host", " a")], "", "G%b H", False),
         ("ctrl-name", [("Ho%bst", " a")], "", "R", True),
+        # control byte as the very first byte of a line (added after the seeded change C20-sec-chk-line-start was missed)
+        ("ctrl-line-start", [("%bost", " a")], "", "R", True),
+        ("ctrl-line2-start", [("Host", " a"), ("%b", "b")], "", "R", True),
         ("sp-colon-name", [("Host%w", " a")], "", "R", False),
         ("sp-colon-val", [("Host", " a%w:b")], "", "R", False),
         ("sp-colon-val2", [("Host", "%b%b")], "", "R", False),
